@@ -203,6 +203,7 @@ func checkC12(c *Ctx, r *Report) {
 	r.rule("C12.R9", "the rating group named in the recharge path is parsed in the width of the rating-group type (a narrower parse answers 400 for a legal rating group)", 1)
 	r.rule("C12.R10", "a rejected request leaves the subscriber usable: every lock taken by a request is released on all its exits, the 4xx ones included (shared with C11.R4) - otherwise the valid requests that follow are never answered", 4)
 	r.rule("C12.R11", "a valid update or release is not refused by the file writer: its size guard refuses exactly what the 16-bit record length cannot hold (shared with C03.R1)", 2)
+	r.rule("C12.R13", "the recharge parameter can be taken apart for every subscriber id the CHF admits (the IMSI format only, or a cut at the last separator)", 1)
 	r.rule("C12.R7", "the notification URI registered at creation is not overwritten by update, release or recharge", 1)
 	r.rule("C12.R6", "after credit control has run, a 4xx answer reports a failed operation and is never a check of the request content", 6)
 
@@ -320,6 +321,17 @@ func checkC12(c *Ctx, r *Report) {
 			}
 			good = append(good, rs.ins)
 		}
+		// a success status is the answer to this request's own operation: none is given off the
+		// success edge (an answer replayed from a cache names a session that may be released since)
+		for _, rs := range resp {
+			if rs.ins.Block() == succBlk || succBlk.Dominates(rs.ins.Block()) {
+				continue
+			}
+			if st, ok := constInt(rs.status); ok && st >= 200 && st < 300 {
+				allGood = false
+				detail = fmt.Sprintf("answers %s at %s without the success result of %s for this request: the answer (and its Location) is not that of an operation performed for this request - replayed from an earlier one it names a session that may have been released since, and no new session is opened", describeStatus(rs.status), posOf(c, rs.ins), h.proc)
+			}
+		}
 		okPaths := len(good) > 0 && everyPathFromPasses(succBlk, good)
 		if allGood && !okPaths {
 			detail = fmt.Sprintf("a path on the success edge returns without answering %d", h.status)
@@ -427,6 +439,7 @@ func checkC12(c *Ctx, r *Report) {
 	r.shareFrom(c, checkC11, map[string]string{"C11.R4": "C12.R10"})
 	checkParseWidths(c, r, "C12.R9", c.fn("internal/sbi", "Server.RechargePut"))
 	r.shareFrom(c, checkC03, map[string]string{"C03.R1": "C12.R11"})
+	c12RechargeParamVsAdmittedIds(c, r, "C12.R13")
 	checkNotifyUriWriters(c, r, "C12.R7")
 
 	// ---- R5 status constants
